@@ -78,6 +78,9 @@ namespace opensmt::tokens {
         "numeral",
         "par",
         "string",
+        "DECIMAL", // the lexer's spelling of the three sort keywords
+        "NUMERAL",
+        "STRING",
         "exists",
         "forall",
         "assert",
